@@ -31,7 +31,7 @@ COQ_IMPORTS = 'From VRP Require Import Base.Tac Model.Core Spec.Valid Model.Home
 MODEL_TARGETS = ['theories/Spec/Valid.vo', 'theories/Model/Evolution.vo']
 MODEL_NEEDS_IMPL = True
 SHARD = 24
-SIZES = {'quick': 16, 'thorough': 80, 'search': 40}          # number of PROBLEMS (each expands to K + 3 runs)
+SIZES = {'quick': 24, 'thorough': 80, 'search': 40}          # number of PROBLEMS (each expands to K + 3 runs)
 CAP = {'quick': 90, 'thorough': 260}
 RULE = ('cases: SIZES[tier] generated pragmatic problems (2-5 jobs in the quick tier, up to 7 in thorough; e2e.gen_checked_problem: '
         'singles and multi jobs, windows, capacity, skills, limits, metric and non-metric matrices) x max_generations 1-3 (thorough: '
